@@ -12,7 +12,7 @@ from microjs.values import UNDEFINED, NULL
 VALUES = {"5": 5, "2.5": 2.5, "'5'": "5", "'ab'": "ab", "true": True, "null": NULL, "undefined": UNDEFINED, "-0": -0.0, "NaN": math.nan}
 RHS = {"3": 3, "'7'": "7", "true": True, "2.5": 2.5, "1": 1, "-1": -1, "0": 0}
 COMPOUND = {"+=": OPS.op_add, "-=": OPS.op_sub, "*=": OPS.op_mul, "/=": OPS.op_div, "%=": OPS.op_mod, "&=": OPS.op_band, "|=": OPS.op_bor,
-            "^=": OPS.op_bxor, "<<=": OPS.op_shl, ">>=": OPS.op_shr, ">>>=": OPS.op_ushr}
+            "^=": OPS.op_bxor, "<<=": OPS.op_shl, ">>=": OPS.op_shr, ">>>=": OPS.op_ushr, "**=": OPS.op_pow}
 
 # kind -> (template with {INIT} initial value, {ACCESS} the access expression on `v`; the template must define
 #          `getv` (closure reading v, created before the access) and return RES([<access>, v, getv()]))
@@ -142,4 +142,41 @@ EXTRA = [
     ("closure-in-dowhile-test", "(function () { var x = 1, r; do { x = 2 } while ((r = function () { return x }) && false); return r() })()", 2),
     ("closure-in-conditional", "(function () { var x = 1; var r = true ? function () { return x } : null; x = 2; return r() })()", 2),
     ("closure-in-argument", "(function () { var x = 1; var r = [function () { return x }][0]; x = 2; return r() })()", 2),
+    # `arguments` of a function that also contains functions using their own `arguments`
+    ("arguments-with-inner-arguments", "function sum(){ var t = 0; for (var i = 0; i < arguments.length; i++) t += arguments[i]; var g = function(){ return arguments.length }; return t + g(1, 2) } sum(1, 2, 3)", 8),
+    ("arguments-captured-by-arrow-free-inner", "function f(){ var n = arguments.length; var g = function(){ return arguments[0] + n }; return g(10) + arguments[1] } f(1, 2)", 14),
+    ("arguments-inner-first", "function f(){ var g = function(){ return arguments.length }; return g() + ':' + arguments.length + ':' + arguments[0] } f(7, 8)", "0:2:7"),
+    ("arguments-and-captured-param", "function f(a){ var g = function(){ return a + arguments.length }; return g(1, 2, 3) + arguments.length } f(5)", 9),
+    # the function's own name: visible in a named function expression unless a parameter or var of that name shadows it;
+    # a function declaration's name is not bound inside it at all (the var is a fresh local)
+    ("own-name-decl-bare-var", "function f(){ var f; return typeof f } f()", "undefined"),
+    ("own-name-expr-bare-var", "var g = function f(){ var f; return typeof f }; g()", "undefined"),
+    ("own-name-expr-var-in-branch", "var g = function f(n){ var t = typeof f; if (n < 0) { var f = 1 } return t }; g(1)", "undefined"),
+    ("own-name-expr-param", "var g = function f(f){ return typeof f }; g() + '|' + g(1)", "undefined|number"),
+    ("own-name-expr-visible", "var g = function f(){ return typeof f }; g()", "function"),
+    ("own-name-expr-visible-in-closure", "var g = function f(){ return (function(){ return typeof f })() }; g()", "function"),
+    ("own-name-expr-shadowed-in-closure", "var g = function f(){ var f; return (function(){ return typeof f })() }; g()", "undefined"),
+    ("own-name-decl-assigned-var", "function f(){ var f = 2; return f } f()", 2),
+    ("own-name-inner-declaration", "var g = function f(){ function f(){ return 2 } return f() }; g()", 2),
+    # function declarations in a block take effect when the block is entered
+    ("block-fn-before-decl", "function g(){ { return f(); function f(){ return 1 } } } g()", 1),
+    ("block-fn-in-if", "function g(c){ if (c) { return h(); function h(){ return 'a' } } return 'b' } g(1) + g(0)", "ab"),
+    ("block-fn-in-loop", "function g(){ var out = []; for (var i = 0; i < 2; i++) { out.push(f(i)); function f(x){ return x * 2 } } return out.join() } g()", "0,2"),
+    ("block-fn-toplevel", "var r; { r = f(); function f(){ return 2 } } r", 2),
+    ("block-fn-captures", "function g(){ var k = 5; { var r = f(); function f(){ return k } } return r } g()", 5),
+    # loops over an object that the body changes
+    ("forof-sees-pushed-elements", "var a = [1, 2], out = []; for (var x of a) { if (a.length < 5) a.push(x + 10); out.push(x) } out.join()", "1,2,11,12,21"),
+    ("forof-sees-removed-elements", "var a = [1, 2, 3, 4], out = []; for (var x of a) { a.pop(); out.push(x) } out.join()", "1,2"),
+    ("forof-length-zero", "var a = [1, 2, 3], out = []; for (var x of a) { a.length = 0; out.push(x) } out.join()", "1"),
+    ("forof-element-changed", "var a = [1, 2, 3], out = []; for (var x of a) { a[2] = 9; out.push(x) } out.join()", "1,2,9"),
+    ("forin-skips-deleted", "var o = {a: 1, b: 2, c: 3}, out = []; for (var k in o) { delete o.b; out.push(k) } out.join()", "a,c"),
+    ("forin-skips-deleted-array", "var a = [1, 2, 3], out = []; for (var k in a) { a.pop(); out.push(k) } out.join()", "0,1"),
+    ("forin-ignores-added", "var o = {a: 1, b: 2}, out = []; for (var k in o) { o.z = 1; out.push(k) } out.join()", "a,b"),
+    ("forin-deleted-and-readded", "var o = {a: 1, b: 2}, out = []; for (var k in o) { if (k == 'a') { delete o.b; o.b = 5 } out.push(k) } out.join()", "a,b"),
+    # return: the value starts on the line of the keyword
+    ("return-newline-value", "function f(){ return\n 5 } String(f())", "undefined"),
+    ("return-same-line", "function f(){ return 5\n } f()", 5),
+    ("return-paren-continues", "function f(){ return (\n 5) } f()", 5),
+    ("return-comment-with-newline", "function f(){ return /* a\n b */ 7 } String(f())", "undefined"),
+    ("return-newline-then-statement", "function f(){ var x = 1; if (x) return\n x = 2; return x } String(f())", "undefined"),
 ]
